@@ -184,4 +184,6 @@ def run(rep):
     from pgv.replayers import c20 as R
     for res in R.physics_cases(rep.seed, thorough=rep.tier == 'thorough'):
         rep.add_bounded(f"{P}/bounded.coolprop/{res['name']}", res['ok'], res['detail'], replay={'kind': 'c20.physics', 'name': res['name']})
+    for res in R.stored_constant_cases():
+        rep.add_bounded(f"{P}/bounded.{res['name']}", res['ok'], res['detail'], replay={'kind': 'c20.stored'})
     rep.extra_cov['exhaustive'] = True
